@@ -14,7 +14,8 @@ from mc import core, seams, simsock
 
 PROP = 'C13'
 TECH = 'explicit-state BFS over two real TcpConnection objects on a simulated socket pair: byte-granular transfer events and poll events in every order; corruption injected at every frame position'
-ASSUME = ['send buffer of 16 bytes and recv size of 8 bytes so that messages are smaller than, around and larger than the buffers',
+ASSUME = ['plans: plain = established pair; c: = A dials and sends from its on-connected callback; r: = the peer closes once at any moment, A dials again from inside its onDisconnected callback and queues its next message there',
+          'send buffer of 16 bytes and recv size of 8 bytes so that messages are smaller than, around and larger than the buffers',
           'level-triggered poll: WRITE ready iff the socket has free space, READ ready iff data/EOF/error is pending',
           'virtual clock frozen (no read timeouts in this check; C14 covers them)']
 
@@ -25,7 +26,12 @@ MESSAGES = {
     'm': b'\x00\x01\x02\x03\x04\x05\x06\x07',    # around the buffer sizes once framed
     'L': bytes(range(256))[:90],               # larger than both buffers, hardly compressible
 }
-CORRUPTIONS = ('len-1', 'len-min', 'len0', 'len-short', 'len-long', 'len-max', 'flip-first', 'flip-mid', 'flip-last', 'trunc')
+CORRUPTIONS = ('len-1', 'len-min', 'len0', 'len-short', 'len-long', 'len-max', 'flip-first', 'flip-mid', 'flip-last', 'trunc',
+               'pickle-opcode', 'pickle-underflow', 'pickle-odd-setitems', 'pickle-global', 'pickle-empty', 'pickle-nostop')
+# a well-formed frame and a well-formed deflate stream around a byte string that is not a pickle (the different ways the
+# C and the pure-Python unpickler fail: unknown opcode, stack underflow, odd SETITEMS, unknown module, empty, no STOP)
+BAD_PICKLES = {'pickle-opcode': b'\xff.', 'pickle-underflow': b'0.', 'pickle-odd-setitems': b'}(K\x01u.',
+               'pickle-global': b'cno_such_module_c13\nname\n.', 'pickle-empty': b'', 'pickle-nostop': b'K\x01'}
 
 
 def frame(msg):
@@ -58,22 +64,44 @@ def corrupt_frame(msg, kind):
         return f[:4] + data[:-1] + bytes([data[-1] ^ 0x5a])
     if kind == 'trunc':
         return struct.pack('i', n) + data[:-2]
+    if kind in BAD_PICKLES:
+        data = zlib.compress(BAD_PICKLES[kind], 3)
+        return struct.pack('i', len(data)) + data
     raise ValueError(kind)
 
 
-DEFINITELY_INVALID = ('len-1', 'len-min', 'len0', 'len-short', 'flip-first', 'flip-mid', 'flip-last')
+DEFINITELY_INVALID = ('len-1', 'len-min', 'len0', 'len-short', 'flip-first', 'flip-mid', 'flip-last') + tuple(sorted(BAD_PICKLES))
 
 
 class Rec(object):
     def __init__(self):
         self.delivered = []
+        self.delivered2 = []      # on the second connection (reconnect plans)
         self.disc = {'A': 0, 'B': 0}
+        self.w = None
+        self.reconnect_plan = None
 
     def on_msg(self, m):
         self.delivered.append(m)
 
+    def on_msg2(self, m):
+        self.delivered2.append(m)
+
     def on_disc_a(self):
         self.disc['A'] += 1
+        w = self.w
+        if self.reconnect_plan is not None and w is not None and w.epoch == 0:
+            # the owner dials again from inside the callback (as TCPTransport does) and queues its next
+            # message at once; it has to reach the peer through the new connection
+            w.epoch = 1
+            w.A.connect('10.0.0.2', 2)
+            w.fa = w.A.fileno()
+            w.established = False
+            if w.next < len(self.reconnect_plan):
+                m = MESSAGES[self.reconnect_plan[w.next]]
+                w.sent2.append(m)
+                w.next += 1
+                w.A.send(m)
 
     def on_disc_b(self):
         self.disc['B'] += 1
@@ -101,7 +129,8 @@ class W(object):
 
 
 class FramingModel(object):
-    def __init__(self, plan, corrupt_at=None, corrupt_kind=None, sndcap=16, recvsize=8, connect=False):
+    def __init__(self, plan, corrupt_at=None, corrupt_kind=None, sndcap=16, recvsize=8, connect=False, reconnect=False):
+        self.reconnect = reconnect        # the peer closes once; A's onDisconnected callback dials again and sends
         self.connect = connect            # A dials (non-blocking connect) and sends plan[0] from its on-connected callback
         seams.install()
         simsock.install()
@@ -141,6 +170,11 @@ class FramingModel(object):
             w.established = True
         w.corrupt_idx = None
         w.exc = None
+        w.epoch = 0
+        w.sent2 = []
+        w.rec.w = w
+        if self.reconnect:
+            w.rec.reconnect_plan = self.plan
         return w
 
     def _fields(self, c):
@@ -150,7 +184,7 @@ class FramingModel(object):
 
     def key(self, w):
         return (self._fields(w.A), self._fields(w.B) if w.B is not None else None, w.established, w.net.key(), w.poller.key(), w.next, len(w.rec.delivered),
-                tuple(sorted(w.rec.disc.items())))
+                tuple(sorted(w.rec.disc.items())), w.epoch, len(w.rec.delivered2), w.fa, w.fb)
 
     def outcome(self, w):
         return (len(w.rec.delivered), w.B.state if w.B is not None else None, w.A.state)
@@ -160,6 +194,8 @@ class FramingModel(object):
         sa, sb = w.net.sockets[w.fa], w.net.sockets[w.fb]
         if not w.established:
             return [('est',)]
+        if self.reconnect and w.epoch == 0 and w.B.state == 2:
+            evs.append(('closeB',))
         if w.next < len(self.plan) and w.A.state == 2 and (w.next > 0 or not self.connect):
             if self.corrupt_at == w.next:
                 if w.A.getSendBufferSize() == 0:
@@ -199,12 +235,20 @@ class FramingModel(object):
                 a.peer, b.peer = b.fd, a.fd
                 if a.fd in w.net.pending_connects:
                     w.net.pending_connects.remove(a.fd)
-                w.B = TcpConnection(w.poller, onMessageReceived=w.rec.on_msg, onDisconnected=w.rec.on_disc_b, socket=b,
+                if w.epoch == 1:
+                    b = w.net.socket()
+                    b.state = 'connected'
+                    a.peer, b.peer = b.fd, a.fd
+                    w.fb = b.fd
+                w.B = TcpConnection(w.poller, onMessageReceived=(w.rec.on_msg2 if w.epoch == 1 else w.rec.on_msg),
+                                    onDisconnected=w.rec.on_disc_b, socket=b,
                                     timeout=1e9, sendBufferSize=self.sndcap, recvBufferSize=self.recvsize)
                 w.established = True
+            elif ev[0] == 'closeB':
+                w.B.disconnect()
             elif ev[0] == 'send':
                 m = MESSAGES[self.plan[w.next]]
-                w.sent.append(m)
+                (w.sent2 if w.epoch == 1 else w.sent).append(m)
                 w.next += 1
                 w.A.send(m)
             elif ev[0] == 'inject':
@@ -225,6 +269,8 @@ class FramingModel(object):
         return w
 
     def check(self, w):
+        if self.reconnect:
+            return self.check_reconnect(w)
         d = w.rec.delivered
         limit = len(w.sent)
         if w.corrupt_idx is not None:
@@ -250,6 +296,34 @@ class FramingModel(object):
         return None
 
 
+def _check_reconnect(self, w):
+    d, d2 = w.rec.delivered, w.rec.delivered2
+    if d != w.sent[:len(d)]:
+        return 'C13 first connection delivered %r, sent %r' % (d, w.sent)
+    if d2 != w.sent2[:len(d2)]:
+        return 'C13 second connection delivered %r, sent on it %r' % (d2, w.sent2)
+    if w.rec.disc['A'] > 1:
+        return 'C13 onDisconnected of A fired %d times for one close' % w.rec.disc['A']
+    if not self.events(w) and w.epoch == 1:
+        if w.A.state != 2 or w.B is None or w.B.state != 2:
+            return 'C13 quiescent after the reconnect but the connection is not up (A=%r B=%r)' % (w.A.state, w.B and w.B.state)
+        if w.next == len(self.plan) and d2 != w.sent2:
+            return ('C13 messages queued on the new connection (the first one from inside the onDisconnected callback) were lost: '
+                    'delivered %r, sent %r' % (d2, w.sent2))
+    return None
+
+
+FramingModel.check_reconnect = _check_reconnect
+
+
+def make_model(plan, at=None, kind=None):
+    if plan.startswith('c:'):
+        return FramingModel(plan[2:], at, kind, connect=True)
+    if plan.startswith('r:'):
+        return FramingModel(plan[2:], at, kind, reconnect=True)
+    return FramingModel(plan, at, kind)
+
+
 def job(name, plans, corrupt, kinds=None):
     import time
     t0 = time.time()
@@ -260,7 +334,7 @@ def job(name, plans, corrupt, kinds=None):
         if corrupt:
             variants = [(i, k) for i in range(len(plan)) for k in (kinds or CORRUPTIONS)]
         for at, kind in variants:
-            m = FramingModel(plan[2:], at, kind, connect=True) if plan.startswith('c:') else FramingModel(plan, at, kind)
+            m = make_model(plan, at, kind)
             r = core.bfs(m, name='%s/%s/%s@%s' % (name, plan, kind, at), known=known, prop=PROP)
             total.states += r.states
             total.transitions += r.transitions
@@ -290,7 +364,7 @@ def plans_of(maxlen, alphabet='esmL'):
 
 def replay_trace(jobname, trace):
     head = trace[0]
-    m = FramingModel(head[1][2:], head[2], head[3], connect=True) if head[1].startswith('c:') else FramingModel(head[1], head[2], head[3])
+    m = make_model(head[1], head[2], head[3])
     msg, _ = core.replay(m, [tuple(e) for e in trace[1:]])
     return msg
 
@@ -299,16 +373,16 @@ def main(tier, seed, job_filter=None):
     rep = core.Report(PROP, tier, seed, TECH, ASSUME)
     q = tier == 'quick'
     if q:
-        clean = ['e', 's', 'm', 'es', 'se', 'c:s', 'c:m', 'c:se']
+        clean = ['e', 's', 'm', 'es', 'se', 'c:s', 'c:m', 'c:se', 'r:e', 'r:s']
         cplans = ['s', 'es']
     else:
-        clean = plans_of(2, 'esm') + ['L', 'eL', 'Ls'] + ['ese', 'sms', 'ems'] + ['c:s', 'c:m', 'c:L', 'c:se', 'c:ms']
+        clean = plans_of(2, 'esm') + ['L', 'eL', 'Ls'] + ['ese', 'sms', 'ems'] + ['c:s', 'c:m', 'c:L', 'c:se', 'c:ms', 'r:e', 'r:s', 'r:m', 'r:es', 'r:ss']
         cplans = plans_of(2, 'esm') + ['m', 's', 'e']
     jobs = [(job, dict(name='framing:clean:%s' % p, plans=[p], corrupt=False)) for p in clean]
     for p in cplans:
         for k in CORRUPTIONS:
             jobs.append((job, dict(name='framing:corrupt:%s:%s' % (p, k), plans=[p], corrupt=True, kinds=[k])))
-    jobs.sort(key=lambda j: -len(j[1]['plans'][0].replace('c:', '')))
+    jobs.sort(key=lambda j: -len(j[1]['plans'][0].replace('c:', '').replace('r:', '')))
     if job_filter:
         jobs = [j for j in jobs if job_filter in j[1]['name']]
     rep.replay_fn = replay_trace
